@@ -26,7 +26,11 @@ AggExprs(t) ==
         \o Flat(MapS(bv, LAMBDA c : <<Agg("any", Col(c)), Agg("all", Col(c)), Agg("sum", Col(c))>>))
         \o Flat(MapS(c1, LAMBDA c : Flat(MapS(pr, LAMBDA p : <<AggF("sum", Col(c), p), AggF("count", Col(c), p), Len0F(p),
                                                                   AggF("max", Col(c), p)>>))))
-        \o Flat(MapS(c1, LAMBDA c : MapS(gp, LAMBDA g : Fn2("add", Col(g), Agg("max", Col(c))))))
+        \o Flat(MapS(c1, LAMBDA c : Flat(MapS(gp, LAMBDA g :
+              <<Fn2("add", Col(g), Agg("max", Col(c))),
+                Fn2("add", Agg("sum", Col(c)), Cast(Col(g), "float")),
+                Case1D(Fn2("gt", Col(g), LitI(1)), Agg("sum", Col(c)), LitI(0)),
+                Case1D(Fn1("is_null", Col(g)), LitI(-1), Agg("count", Col(c)))>>))))
 
 MovesAgg(h, kn) ==
     LET i  == Len(h)
@@ -128,6 +132,9 @@ MovesWinS(h, kn) ==
         \o <<MMutate(i, <<KV(wname, Agg("sum", Col(x)))>>), MMutate(i, <<KV(wname, Len0)>>)>>
         \o <<MFilter(i, <<Fn2("gt", Col(iv[1]), LitI(0))>>)>>
         \o MapS(SelectSeq(iv, LAMBDA c : t.nm[c] = "g"), LAMBDA c : MGroupBy(i, <<Col(c)>>, FALSE))
+        \o <<MAlias(i, t.name, TRUE)>>
+        \o (IF "w" \in VisNames(t) /\ t.ty[ByName(t)["w"]] = "int" THEN <<MFilter(i, <<Fn2("le", CN("w"), LitI(2))>>)>> ELSE <<>>)
+        \o (IF t.part # <<>> THEN <<MSummarize(i, <<KV("s", Agg("sum", Col(x)))>>)>> ELSE <<>>)
 
 ---------------------------------------------------------------------------
 (* C10: a handful of expression OBJECTS (the replayer keeps one python object per distinct expression) used *)
